@@ -69,6 +69,7 @@ thread_local! {
 pub struct AgentRun {
     pub agent: StunAgent,
     pub base: Instant,
+    pub snaps: u64,
 }
 
 fn tid_hex(t: TransactionId) -> String {
@@ -97,7 +98,12 @@ impl AgentRun {
         if let Some(ra) = REMOTE_ADDR.with(|r| r.borrow().clone()) {
             b = b.remote_addr(addr_of(&ra));
         }
-        AgentRun { agent: b.build(), base }
+        let agent = b.build();
+        // the accessors must report what the builder was given (they are what callers route packets by)
+        let ra = REMOTE_ADDR.with(|r| r.borrow().clone()).map(|ra| addr_of(&ra));
+        assert!(agent.transport() == transport && agent.local_addr() == addr_of(local) && agent.remote_addr() == ra,
+                "agent accessors disagree with the builder arguments");
+        AgentRun { agent, base, snaps: 0 }
     }
 
     fn at(&self, ns: u64) -> Instant {
@@ -117,15 +123,27 @@ impl AgentRun {
         format!("tx:{}:{}:{}:{}:{}", tid, hex(t.data()), addr_str(t.from), addr_str(t.to), tr_str(t.transport))
     }
 
-    pub fn snapshot(&self) -> String {
+    pub fn snapshot(&mut self) -> String {
         let v: String = ADDRS.iter().map(|a| if self.agent.is_validated_peer(addr_of(a)) { '1' } else { '0' }).collect();
         let mut o = String::new();
         let mut p = vec![];
+        self.snaps += 1;
         for t in TIDS.iter() {
-            match self.agent.request_transaction((*t).into()) {
-                Some(r) => {
+            // the peer address is read alternately through the shared and the mutable request handle
+            let via_mut = self.snaps % 2 == 0;
+            let peer = if via_mut {
+                self.agent.mut_request_transaction((*t).into()).map(|mut r| {
+                    let pa = r.peer_address();
+                    assert!(r.agent().local_addr() == r.mut_agent().local_addr());
+                    pa
+                })
+            } else {
+                self.agent.request_transaction((*t).into()).map(|r| r.peer_address())
+            };
+            match peer {
+                Some(pa) => {
                     o.push('1');
-                    let pa = addr_str(r.peer_address());
+                    let pa = addr_str(pa);
                     p.push(match ADDRS.iter().position(|a| *a == pa) {
                         Some(i) => i.to_string(),
                         None => pa,
@@ -246,12 +264,14 @@ impl AgentRun {
             }
             "K" => {
                 self.agent.set_remote_credentials(key_creds(p[1]));
+                assert!(self.agent.remote_credentials() == Some(key_creds(p[1])), "remote_credentials() is not what was set");
                 "ok".into()
             }
             "L" => {
                 // local credentials: what the agent's own requests are sealed with; they must play no
                 // part in accepting responses
                 self.agent.set_local_credentials(key_creds(p[1]));
+                assert!(self.agent.local_credentials() == Some(key_creds(p[1])), "local_credentials() is not what was set");
                 "ok".into()
             }
             o => panic!("bad op {o}"),
